@@ -141,6 +141,11 @@ func c06World(t *testing.T, p c06Params) rt.Result {
 			upFrom := 1 // index of the first corebgp message of the "connection is up" phase
 			established := false
 			if sp.Traffic != "ocsilent" {
+				// the remote confirms late, but within the keepalive interval: the cadence
+				// continues across the step from OpenConfirm to Established
+				if H > 0 && r.IntN(2) == 0 {
+					time.Sleep(time.Duration(float64(H/3) * (0.05 + 0.85*r.Float64())))
+				}
 				rc.SendKeepalive()
 				lastRemote = w.Now()
 				w.Settle()
